@@ -322,7 +322,9 @@ impl Report {
             "violations": new_v.len(),
             "known_findings_observed": known_v.iter().map(|v| v.signature.clone()).collect::<Vec<_>>(),
             "violation_list": self.violations.iter().map(|v| json!({
-                "signature": v.signature, "detail": v.detail, "witness": v.witness})).collect::<Vec<_>>(),
+                "signature": v.signature, "detail": v.detail, "witness": v.witness,
+                "occurrences": self.counter(&format!("violation::{}", v.signature)),
+                "replay": replay_path(&self.property, &v.signature, self.seed).display().to_string()})).collect::<Vec<_>>(),
             "inconclusive": self.inconclusive,
             "verdict": if !new_v.is_empty() { "violated" } else if !self.inconclusive.is_empty() { "inconclusive" } else { "held" },
         })
@@ -333,6 +335,15 @@ impl Report {
     pub fn finish(&self, out: Option<&Path>) -> i32 {
         let known = KnownFindings::load();
         let j = self.to_json(&known);
+        // the check driver collects shards from VERIF_OUT_DIR and prints the verdict itself
+        let env_out = std::env::var("VERIF_OUT_DIR")
+            .ok()
+            .map(|d| PathBuf::from(d).join(format!("{}.json", self.property)));
+        let out: Option<&Path> = match (&out, &env_out) {
+            (Some(p), _) => Some(*p),
+            (None, Some(p)) => Some(p.as_path()),
+            _ => None,
+        };
         let path = match out {
             Some(p) => p.to_path_buf(),
             None => verif_root()
@@ -388,15 +399,21 @@ impl Report {
     }
 }
 
-pub fn write_replay(prop: &str, signature: &str, seed: u64, tier: Tier, v: &Violation) -> PathBuf {
+pub fn replay_path(prop: &str, signature: &str, seed: u64) -> PathBuf {
     let dir = verif_root().join("artifacts").join(prop);
-    let _ = std::fs::create_dir_all(&dir);
     let name: String = signature
         .chars()
         .map(|c| if c.is_ascii_alphanumeric() { c } else { '_' })
         .take(80)
         .collect();
-    let path = dir.join(format!("{name}-seed{seed}.json"));
+    dir.join(format!("{name}-seed{seed}.json"))
+}
+
+pub fn write_replay(prop: &str, signature: &str, seed: u64, tier: Tier, v: &Violation) -> PathBuf {
+    let path = replay_path(prop, signature, seed);
+    if let Some(dir) = path.parent() {
+        let _ = std::fs::create_dir_all(dir);
+    }
     let j = json!({
         "property": prop, "signature": signature, "seed": seed, "tier": tier.as_str(),
         "detail": v.detail, "witness": v.witness,
